@@ -224,16 +224,32 @@ type RawSPS struct {
 	Vui                      RawVUI
 }
 
+// cropUnits 裁剪单位 CropUnitX/CropUnitY（H.264 7.4.2.1.1，公式 7-19 ~ 7-22）
+func (sps *RawSPS) cropUnits() (cropUnitX, cropUnitY int) {
+	chromaArrayType := sps.ChromaFormatIdc
+	if sps.SeparateColourPlaneFlag == 1 {
+		chromaArrayType = 0
+	}
+	cropUnitX, cropUnitY = 1, 2-int(sps.FrameMbsOnlyFlag)
+	switch chromaArrayType {
+	case 1: // 4:2:0
+		cropUnitX, cropUnitY = 2, 2*cropUnitY
+	case 2: // 4:2:2
+		cropUnitX = 2
+	}
+	return
+}
+
 // Width 视频宽度（像素）
 func (sps *RawSPS) Width() int {
-	w := (sps.PicWidthInMbsMinus1+1)*16 - sps.FrameCropLeftOffset*2 - sps.FrameCropRightOffset*2
-	return int(w)
+	cropUnitX, _ := sps.cropUnits()
+	return (int(sps.PicWidthInMbsMinus1)+1)*16 - cropUnitX*(int(sps.FrameCropLeftOffset)+int(sps.FrameCropRightOffset))
 }
 
 // Height 视频高度（像素）
 func (sps *RawSPS) Height() int {
-	h := (2-uint16(sps.FrameMbsOnlyFlag))*(sps.PicHeightInMapUnitsMinus1+1)*16 - sps.FrameCropTopOffset*2 - sps.FrameCropBottomOffset*2
-	return int(h)
+	_, cropUnitY := sps.cropUnits()
+	return (2-int(sps.FrameMbsOnlyFlag))*(int(sps.PicHeightInMapUnitsMinus1)+1)*16 - cropUnitY*(int(sps.FrameCropTopOffset)+int(sps.FrameCropBottomOffset))
 }
 
 // FrameRate Video frame rate
